@@ -104,7 +104,7 @@ def _huge_case(draw):
 
 
 def strategy(tier):
-    hist = st.builds(lambda ops: {"ops": ops}, wone_of(st.lists(_op(), min_size=1, max_size=40), sized_lists(_op(), 5, 40)))
+    hist = st.builds(lambda ops, ids: {"ops": ops, "ids": ids} if ids else {"ops": ops}, wone_of(st.lists(_op(), min_size=1, max_size=40), sized_lists(_op(), 5, 40)), st.sampled_from([None, None, None, "strsub"]))
     small = wone_of(hist, hist, st.composite(_bulk_case)(), st.composite(_bulk_case)(), st.composite(_perm_case)(), st.composite(_dual_case)())
     large = st.composite(_large_case)()
     huge = st.composite(_huge_case)()
@@ -157,6 +157,11 @@ class _State:
         self.rejected = {}      # id -> last object whose registration under that id was rejected
 
 
+class StrName(str):
+    """a typed name (str subclass): equal to, and hashing like, the plain string"""
+    __slots__ = ()
+
+
 def run_case(case):
     POOL = max(1, min(int(case.get("pool", 7)), 1400))          # number of system ids (large cases cross size thresholds)
     states = {}
@@ -196,7 +201,7 @@ def run_case(case):
             model, log, live, removed_once, graveyard, rejected = S.model, S.log, S.live, S.removed_once, S.graveyard, S.rejected
         if kind == "add":
             i, prio = int(op["id"]) % POOL, int(op["prio"])
-            sid = f"s{i}"
+            sid = StrName(f"s{i}") if case.get("ids") == "strsub" else f"s{i}"     # identifiers that are str objects of a subclass
             next_token[0] += 1
             token = next_token[0]
             given, prio = as_priority(op, prio)
